@@ -170,7 +170,12 @@ def run(tier):
         if len(av) >= 1500:
             av = list(gql.explore_choices(build, 1, 1500))
         vectors[oi] = (vs, [a for _, _, a in av], bound)
-    reqs, meta = [], []
+    default = tuple(0 for _ in DIMS)
+    distinct = set()
+    outcomes = {"same": 0, "different": 0}
+    per = {}
+    n_eval = 0
+    by_op = {}
     for m in mods:
         if not m["case"]:
             continue
@@ -178,49 +183,65 @@ def run(tier):
             rep.violation("does_not_compile", m["label"], [(e["code"], e["message"][:150]) for e in farm.cases[m["case"]].errors[:2]])
             m["case"] = None
             continue
-        vs, av, _ = vectors[m["oi"]]
-        for i, (what, p) in enumerate(vs):
-            reqs.append({"case": m["case"], "module": m["module"], "what": "resp", "arg": p})
-            meta.append((m, "resp", i))
-        for i, a in enumerate(av):
-            reqs.append({"case": m["case"], "module": m["module"], "what": "vars", "arg": a})
-            meta.append((m, "vars", i))
-    log(f"[C09] {len(ops)} operations x {len(sets)} option sets = {len(mods)} modules, {len(reqs)} evaluations")
-    fres = farm.run(reqs)
-    table = {}
-    for (m, kind, i), r in zip(meta, fres):
+        by_op.setdefault(m["oi"], []).append(m)
+
+    def observe(r):
         if r is None:
-            obs = "none"
-        elif r.get("ok"):
-            obs = "ok:" + canon_out(r["out"])
-        else:
-            obs = "rejected"
-        table[(m["oi"], kind, i, m["set"], m["base"])] = obs
-    default = tuple(0 for _ in DIMS)
-    distinct = set()
-    outcomes = {"same": 0, "different": 0}
-    per = {}
-    for (oi, kind, i, s, bi), obs in table.items():
-        if s == default:
-            continue
-        ref = table.get((oi, kind, i, default, bi))
-        if ref is None:
-            continue
-        distinct.add((oi, s, bi))
-        if obs == ref:
-            outcomes["same"] += 1
-            continue
-        outcomes["different"] += 1
+            return "none"
+        return "ok:" + canon_out(r["out"]) if r.get("ok") else "rejected"
+
+    # operations are evaluated in groups (bounded memory); within a group the modules of the default option set come
+    # first, so every other observation is compared as soon as it arrives
+    order = sorted(by_op)
+    group, group_reqs = [], 0
+    def run_group(ois):
+        nonlocal n_eval
+        reqs, meta = [], []
+        for oi in ois:
+            vs, av, _ = vectors[oi]
+            for m in sorted(by_op[oi], key=lambda x: x["set"] != default):
+                for i, (what, p) in enumerate(vs):
+                    reqs.append({"case": m["case"], "module": m["module"], "what": "resp", "arg": p})
+                    meta.append((m, "resp", i))
+                for i, a in enumerate(av):
+                    reqs.append({"case": m["case"], "module": m["module"], "what": "vars", "arg": a})
+                    meta.append((m, "vars", i))
+        n_eval += len(reqs)
+        ref = {}
+        for (m, kind, i), r in zip(meta, farm.run(reqs)):
+            obs = observe(r)
+            oi, s, bi = m["oi"], m["set"], m["base"]
+            if s == default:
+                ref[(oi, kind, i, bi)] = obs
+                continue
+            want = ref.get((oi, kind, i, bi))
+            if want is None:
+                continue
+            distinct.add((oi, s, bi))
+            if obs == want:
+                outcomes["same"] += 1
+                continue
+            outcomes["different"] += 1
+            vs, av, _ = vectors[oi]
+            vec = vs[i] if kind == "resp" else ("assignment", av[i])
+            key = (oi, s, kind, bi)
+            per[key] = per.get(key, 0) + 1
+            if per[key] <= 2:
+                rep.violation("wire_format_depends_on_option", dict(m["label"], entry=kind, vector=vec),
+                              {"under_default_options": want[:400], "under_these_options": obs[:400]})
+    for oi in order:
         vs, av, _ = vectors[oi]
-        vec = vs[i] if kind == "resp" else ("assignment", av[i])
-        key = (oi, s, kind, bi)
-        per[key] = per.get(key, 0) + 1
-        if per[key] <= 2:
-            m = next(x for x in mods if x["oi"] == oi and x["set"] == s and x["base"] == bi)
-            rep.violation("wire_format_depends_on_option", dict(m["label"], entry=kind, vector=vec),
-                          {"under_default_options": ref[:400], "under_these_options": obs[:400]})
+        n = (len(vs) + len(av)) * len(by_op[oi])
+        if group and group_reqs + n > 400000:
+            run_group(group)
+            group, group_reqs = [], 0
+        group.append(oi)
+        group_reqs += n
+    if group:
+        run_group(group)
+    log(f"[C09] {len(ops)} operations x {len(sets)} option sets = {len(mods)} modules, {n_eval} evaluations")
     cov = {
-        "evaluations": len(reqs), "distinct_nontrivial": len(distinct),
+        "evaluations": n_eval, "distinct_nontrivial": len(distinct),
         "rule": "modules = %d operations x option sets (%s of normalization x response derives x variables derives x visibility "
                 "x custom-scalars module x serde path x extern enums); vectors per operation = conforming payloads (deviation "
                 "bound 2), every single-point corruption of the default payload, variables assignments (deviation bound 2, capped "
